@@ -20,7 +20,9 @@ func (e netErr) Timeout() bool   { return e.timeout }
 func (e netErr) Temporary() bool { return false }
 
 type scriptedOutcome struct {
-	kind  int // 0 nil, 1 system, 2 net, 3 other, 4 other wrapping a net.Error
+	kind int // 0 nil, 1 system, 2 net, 3 other, 4 other wrapping a net.Error,
+	// 5 the bare context.Canceled, 6 fmt.Errorf("%w", context.Canceled), 7 the bare context.DeadlineExceeded
+	// (implements net.Error), 8 fmt.Errorf("%w", context.DeadlineExceeded) (a plain error wrapping a net.Error)
 	code  int
 	wrap  int // kind 1: the SystemError wraps 0 nothing, 1 net.Error (timeout), 2 net.Error (no timeout), 3 a plain error, 4 nil (literal)
 	added []string
@@ -46,6 +48,14 @@ func (s scriptedOutcome) err() error {
 		return netErr{timeout: s.code%2 == 0}
 	case 4:
 		return fmt.Errorf("scripted other wrapping: %w", netErr{timeout: s.code%2 == 0})
+	case 5:
+		return context.Canceled
+	case 6:
+		return fmt.Errorf("scripted other wrapping: %w", context.Canceled)
+	case 7:
+		return context.DeadlineExceeded
+	case 8:
+		return fmt.Errorf("scripted other wrapping: %w", context.DeadlineExceeded)
 	default:
 		return errors.New("scripted other")
 	}
@@ -71,9 +81,9 @@ func specRetryable(policy int, o scriptedOutcome) bool {
 	// written from the statement of C17, independent of the model
 	class := "other"
 	switch o.kind {
-	case 2:
+	case 2, 7: // a bare net.Error (context.DeadlineExceeded is one: Timeout() / Temporary())
 		class = "network"
-	case 3, 4:
+	case 3, 4, 5, 6, 8: // neither a SystemError nor itself a net.Error -- the bare context.Canceled included
 		class = "unexpected"
 	case 1: // a SystemError's own code decides, whatever it wraps
 		switch o.code {
@@ -116,7 +126,7 @@ func engineRetry(rng *rand.Rand, n int, tier string, o *Out) {
 	id := 0
 	for policy := 0; policy <= 6; policy++ {
 		for code := 0; code < 256; code++ {
-			for kind := 1; kind <= 3; kind++ {
+			for kind := 1; kind <= 8; kind++ {
 				if kind != 1 && code > 1 {
 					continue
 				}
@@ -163,7 +173,7 @@ func engineRetry(rng *rand.Rand, n int, tier string, o *Out) {
 				case 0:
 					so.kind = 2
 				case 1:
-					so.kind = []int{3, 4}[rng.Intn(2)]
+					so.kind = []int{3, 4, 5, 6, 7, 8}[rng.Intn(6)]
 				case 2, 3, 4, 5:
 					so.kind, so.code = 1, []int{3, 4}[rng.Intn(2)]
 				default:
